@@ -36,7 +36,7 @@ func runC20(c *core.Ctx) core.Meta {
 	for _, l := range levels {
 		pkgs = append(pkgs, l.pkg)
 	}
-	pkgs = append(pkgs, "nvidia/tracereader")
+	pkgs = append(pkgs, "nvidia/tracereader", "nvidia/nvidiaconfig")
 	c.Load(pkgs...)
 	c.BuildSSA()
 	prov := core.NewProv(c)
@@ -333,6 +333,9 @@ func runC20(c *core.Ctx) core.Meta {
 	// ---------------- R20.5 the trace-line parser partitions the token list ----------------
 	checkTokenPartition(c)
 
+	// ---------------- R20.6 .. R20.10 trace parsing against the tracer's format (c20parse.go) ----------------
+	checkTraceParsing(c)
+
 	return core.Meta{Level: "other",
 		Explanation: "Structural clauses of the NVIDIA trace-driven pipeline decided on SSA of nvidia/{driver,gpu,sm,subcore} with one table row per hierarchy level: SEND-DISCIPLINE on dispatch and report sites, completion propagation (decrement → ==0 test → finished counter; unit returned to the free list with the decrement and by the ID in the message), zero-work completion at every load site, conservation at load and dispatch sites (head of pending list to head of free list, both popped, both tested non-empty); the trace-line parser consumes every token of a line for at most one field (symbolic cursor intervals, linear in the register counts, pairwise disjoint; the trailing token excluded from every slice).",
 		NotDecided:  "parse round-trip of serialised traces beyond the cursor partition (number formats, field meanings); instruction counts as numbers; termination time",
@@ -396,7 +399,11 @@ func checkTokenPartition(c *core.Ctx) {
 		}
 		c.MarkAnalysed(fn)
 		// the token list: a []string parameter or the result of strings.Fields
-		isList := func(v ssa.Value) bool {
+		var isListD func(v ssa.Value, d int) bool
+		isListD = func(v ssa.Value, d int) bool {
+			if d > 4 {
+				return false
+			}
 			if p, ok := v.(*ssa.Parameter); ok {
 				return p.Type().String() == "[]string"
 			}
@@ -405,8 +412,25 @@ func checkTokenPartition(c *core.Ctx) {
 					return true
 				}
 			}
+			// the list with a leading column dropped (elems = elems[1:]) and the
+			// join of both forms: every index shifts by the same amount, which
+			// leaves the partition property unchanged
+			if sl, ok := v.(*ssa.Slice); ok && sl.High == nil && sl.Max == nil && isListD(sl.X, d+1) {
+				if _, isC := core.ConstInt(sl.Low); isC || sl.Low == nil {
+					return true
+				}
+			}
+			if phi, ok := v.(*ssa.Phi); ok && phi.Type().String() == "[]string" {
+				for _, e := range phi.Edges {
+					if !isListD(e, d+1) {
+						return false
+					}
+				}
+				return len(phi.Edges) > 0
+			}
 			return false
 		}
+		isList := func(v ssa.Value) bool { return isListD(v, 0) }
 		var lin func(v ssa.Value, depth int) linForm
 		loopBound := map[*ssa.Phi]linForm{}
 		lin = func(v ssa.Value, depth int) linForm {
@@ -501,6 +525,21 @@ func checkTokenPartition(c *core.Ctx) {
 					if !isList(t.X) {
 						continue
 					}
+					// `elems = elems[k:]` re-bases the list (its only users are the
+					// joins that carry the list on); it consumes no token
+					if refs := t.Referrers(); refs != nil && len(*refs) > 0 {
+						alias := true
+						for _, r := range *refs {
+							switch r.(type) {
+							case *ssa.Phi, *ssa.DebugRef:
+							default:
+								alias = false
+							}
+						}
+						if alias {
+							continue
+						}
+					}
 					slices = append(slices, t)
 					lo := linForm{coef: map[string]int64{}, ok: true}
 					if t.Low != nil {
@@ -542,8 +581,8 @@ func checkTokenPartition(c *core.Ctx) {
 				if !reach(A.in.Block(), B.in.Block()) && !reach(B.in.Block(), A.in.Block()) {
 					continue // alternative interpretations on exclusive branches
 				}
-				if A.what == B.what {
-					continue // the same token re-read (e.g. in a loop)
+				if A.in == B.in {
+					continue // one read site met twice (a loop)
 				}
 				d1 := B.lo.add(A.hi, -1) // B.lo - A.hi >= 0
 				d2 := A.lo.add(B.hi, -1)
